@@ -617,6 +617,17 @@ LEAN_ALIASES = {"cj_mmul": ["L_cjtr_mmul", "L_tr_mmul"], "cj_madd": ["L_cjtr_mad
                 "herm_mul_cjtr": ["L_psd_mul_cjtr", "L_psd_herm"], "stief_kron": ["L_kron_mmul", "L_cj_kron"], "unit_kron": ["L_unit_kron"], "pow_1": ["L_pow_2"]}
 
 
+# ASSUMED axioms with a Lean proof in lemmas/Theorems.lean.  value = (theorems, scope): scope None = the axiom as stated; otherwise the part that is proved
+LEAN_ASSUMED = {
+    "tril_kron": (["T_tril_kron"], None), "triu_kron": (["T_triu_kron"], None),
+    "isperm_kron": (["T_isperm_kron"], None), "isperm_bd": (["T_isperm_bd"], None),
+    "pinv_invok": (["T_penrose_inv", "T_penrose_unique"], None),
+    "pinv_fullcol": (["T_penrose_fullcol", "T_gram_invertible_of_fullcol", "T_penrose_unique"], None),
+    "invok_kron": (["T_invok_kron"], "square non-empty factors (that a non-square factor makes the product singular is the cited rank argument)"),
+    "invok_bd": (["T_invok_bd"], "square factors (that a non-square block makes the block diagonal singular is the cited rank argument)"),
+}
+
+
 def lean_checked():
     """names of the lemma axioms that have a Lean/Mathlib-checked restatement (recorded by tools/check_lemmas.sh; the file is committed, lean is not run by the checks)"""
     import json
@@ -628,7 +639,7 @@ def lean_checked():
         return [], None
     if not rec.get("checked"):
         return [], rec
-    have = set(rec.get("theorems", []))
+    have = set(rec.get("theorems", [])) | set(rec.get("theorem_level", []))
     out = []
     for (nm, _, p, _) in LEMMAS:
         cands = LEAN_ALIASES.get(nm, [f"L_{nm}"])
@@ -637,10 +648,25 @@ def lean_checked():
     return out, rec
 
 
+def theorems_checked(names):
+    """True when every named theorem of lemmas/Theorems.lean is in the committed Lean record"""
+    _, rec = lean_checked()
+    return bool(rec and rec.get("checked") and all(n in set(rec.get("theorem_level", [])) for n in names))
+
+
 def lemma_stats():
     ml = sum(1 for (_, _, p, _) in LEMMAS if p.startswith(ML))
-    assumed = [(nm, p[len(AS):]) for (nm, _, p, _) in LEMMAS if p.startswith(AS)]
     lc, rec = lean_checked()
+    have = (set(rec.get("theorem_level", [])) if rec and rec.get("checked") else set())
+    assumed = []
+    for (nm, _, p, _) in LEMMAS:
+        if not p.startswith(AS):
+            continue
+        txt = p[len(AS):]
+        th, scope = LEAN_ASSUMED.get(nm, ([], None))
+        if th and all(t in have for t in th):
+            txt += " [Lean-checked in lemmas/Theorems.lean: %s%s]" % (", ".join(th), "" if scope is None else "; scope: " + scope)
+        assumed.append((nm, txt))
     return dict(total=len(LEMMAS), mathlib_named=ml, assumed=assumed,
                 definitional=len(LEMMAS) - ml - len(assumed), lean_checked=lc,
                 lean_record=None if rec is None else dict(lean=rec.get("lean"), theorems=len(rec.get("theorems", [])), source_sha256=rec.get("source_sha256")))
